@@ -112,10 +112,15 @@ func tokenText(id int, long map[int]int) string {
 	if n, ok := long[id]; ok {
 		p = strings.Repeat(p, n/len(p)+1)[:n]
 	}
+	// every fourth token ends with a carriage return: at the end of a line it makes the line end with "\r" before its "\n" (a
+	// child written for another platform) - the carriage return is part of the line
+	if id%4 == 3 {
+		return fmt.Sprintf("<t%d:%s>\r", id, p)
+	}
 	return fmt.Sprintf("<t%d:%s>", id, p)
 }
 
-var tokRe = regexp.MustCompile(`<t(\d+):([a-z]*)>`)
+var tokRe = regexp.MustCompile(`<t(\d+):([a-z]*)>\r?`)
 
 // tokenise maps a logged message back to token numbers; anything that is not a whole known token is 999999.
 func tokenise(msg string, long map[int]int) []int {
